@@ -884,6 +884,13 @@ hwloc__xml_import_object(hwloc_topology_t topology,
 	      state->global->msgprefix, hwloc_obj_type_string(obj->type), obj->os_index);
     goto error_with_object;
   }
+  /* the core and the children reordering below assume that complete sets exist whenever sets exist */
+  if ((!obj->complete_cpuset || !obj->complete_nodeset) && !hwloc__obj_type_is_special(obj->type)) {
+    if (hwloc__xml_verbose())
+      fprintf(stderr, "%s: invalid normal or memory object %s P#%u without complete_cpuset and complete_nodeset\n",
+	      state->global->msgprefix, hwloc_obj_type_string(obj->type), obj->os_index);
+    goto error_with_object;
+  }
   if ((obj->cpuset || obj->nodeset) && hwloc__obj_type_is_special(obj->type)) {
     if (hwloc__xml_verbose())
       fprintf(stderr, "%s: invalid special object %s with cpuset or nodeset\n",
